@@ -105,6 +105,10 @@ func (s *sim) tagString(sc *ck.Script) string {
 // ---------- generator ----------
 
 func manifestJSON(config *ck.Blob, layers []*ck.Blob, salt int) string {
+	return manifestJSONSubject(config, layers, salt, nil)
+}
+
+func manifestJSONSubject(config *ck.Blob, layers []*ck.Blob, salt int, subject *ck.Blob) string {
 	type d struct {
 		MediaType string `json:"mediaType"`
 		Digest    string `json:"digest"`
@@ -116,8 +120,13 @@ func manifestJSON(config *ck.Blob, layers []*ck.Blob, salt int) string {
 		MediaType     string            `json:"mediaType"`
 		Config        d                 `json:"config"`
 		Layers        []d               `json:"layers"`
+		Subject       *d                `json:"subject,omitempty"`
 		Annotations   map[string]string `json:"annotations,omitempty"`
-	}{2, mtManifest, desc(config), []d{}, map[string]string{"salt": strconv.Itoa(salt)}}
+	}{2, mtManifest, desc(config), []d{}, nil, map[string]string{"salt": strconv.Itoa(salt)}}
+	if subject != nil {
+		sd := desc(subject)
+		m.Subject = &sd
+	}
 	for _, l := range layers {
 		m.Layers = append(m.Layers, desc(l))
 	}
@@ -138,10 +147,14 @@ func universe(r *common.Rand, big bool) []ck.Blob {
 		bs[0].Size = 0 // the empty blob: no write at all
 	}
 	salt := r.Intn(1 << 30)
+	// the same store with sha512 digests: blobs/sha512 is created by the first of them
+	l512 := ck.Blob{ID: 1001, Alg: "sha512", Kind: "raw", Size: 1 + r.Intn(50000), Fill: r.U64() >> 12, MediaType: mtLayer}
 	bs = append(bs,
 		ck.Blob{ID: 4, Kind: "manifest", MediaType: mtManifest, JSON: manifestJSON(&bs[2], []*ck.Blob{&bs[0]}, salt)},
 		ck.Blob{ID: 5, Kind: "manifest", MediaType: mtManifest, JSON: manifestJSON(&bs[2], []*ck.Blob{&bs[0], &bs[1]}, salt+1)},
 		ck.Blob{ID: 6, Kind: "manifest", MediaType: mtManifest, JSON: manifestJSON(&bs[2], nil, salt+2)},
+		l512,
+		ck.Blob{ID: 1002, Alg: "sha512", Kind: "manifest", MediaType: mtManifest, JSON: manifestJSON(&bs[2], []*ck.Blob{&l512}, salt+3)},
 	)
 	return bs
 }
@@ -150,7 +163,114 @@ var rawIDs = []int{1, 2, 3}
 var manIDs = []int{4, 5, 6}
 var allIDs = []int{1, 2, 3, 4, 5, 6}
 
+// universeGC: content with referrers, for Delete-with-AutoGC cascades and GC.
+//
+//	1 L layer   2 G unreferenced blob (two write units)   3 C config
+//	4 M  = manifest(C)            5 R1 = manifest(C, subject M)
+//	6 R2 = manifest(C, subject R1) 7 N  = manifest(C, layers [L])
+//
+// The cascades of M, R1, R2 are chains (one new queue entry per deleted node), so
+// their order does not depend on Go's map iteration.
+func universeGC(r *common.Rand) []ck.Blob {
+	bs := []ck.Blob{
+		{ID: 1, Kind: "raw", Size: 1 + r.Intn(300), Fill: r.U64() >> 12, MediaType: mtLayer},
+		{ID: 2, Kind: "raw", Size: 33000 + r.Intn(70000), Fill: r.U64() >> 12, MediaType: mtLayer},
+		{ID: 3, Kind: "raw", Size: 2 + r.Intn(40), Fill: r.U64() >> 12, MediaType: mtConfig},
+	}
+	salt := r.Intn(1 << 30)
+	m := ck.Blob{ID: 4, Kind: "manifest", MediaType: mtManifest, JSON: manifestJSONSubject(&bs[2], nil, salt, nil)}
+	r1 := ck.Blob{ID: 5, Kind: "manifest", MediaType: mtManifest, JSON: manifestJSONSubject(&bs[2], nil, salt+1, &m)}
+	r2 := ck.Blob{ID: 6, Kind: "manifest", MediaType: mtManifest, JSON: manifestJSONSubject(&bs[2], nil, salt+2, &r1)}
+	n := ck.Blob{ID: 7, Kind: "manifest", MediaType: mtManifest, JSON: manifestJSONSubject(&bs[2], []*ck.Blob{&bs[0]}, salt+3, nil)}
+	return append(bs, m, r1, r2, n)
+}
+
+var gcKinds = []string{
+	"dgc-chain", "dgc-referrer", "dgc-tagged-referrer", "dgc-layered", "dgc-blob", "dgc-missing",
+	"gc-garbage", "gc-after-untag", "gc-clean", "reopen",
+	"push-manifest", "tag-new", "untag", "saveindex",
+}
+
+// realizeGC: like realize, for the universe with referrers.  The simulator is only
+// a guide here (a cascade removes more than it knows); the oracle's ground truth
+// of these scripts is observed on disk.
+func realizeGC(r *common.Rand, kind string, s *sim, hist *[]ck.Op) ck.Op {
+	do := func(o ck.Op) { *hist = append(*hist, o); s.apply(o) }
+	push := func(ids ...int) {
+		for _, id := range ids {
+			if !s.blobs[id] {
+				do(ck.Op{Kind: "push", Blob: id})
+			}
+		}
+	}
+	switch kind {
+	case "dgc-chain":
+		if r.Bool() {
+			push(3)
+		}
+		push(4, 5, 6)
+		return ck.Op{Kind: "delete", Blob: 4}
+	case "dgc-referrer":
+		push(4, 5, 6)
+		return ck.Op{Kind: "delete", Blob: 5}
+	case "dgc-tagged-referrer":
+		push(4, 5)
+		do(ck.Op{Kind: "tag", Blob: 5, Ref: 2})
+		return ck.Op{Kind: "delete", Blob: 4}
+	case "dgc-layered":
+		push(4, 1, 7) // C keeps a predecessor (M): only L is left dangling
+		return ck.Op{Kind: "delete", Blob: 7}
+	case "dgc-blob":
+		push(2)
+		return ck.Op{Kind: "delete", Blob: 2}
+	case "dgc-missing":
+		if s.blobs[6] {
+			do(ck.Op{Kind: "delete", Blob: 6})
+		}
+		return ck.Op{Kind: "delete", Blob: 6}
+	case "gc-garbage":
+		push(2, 1, 7, 4)
+		do(ck.Op{Kind: "tag", Blob: 4, Ref: 1})
+		return ck.Op{Kind: "gc"}
+	case "gc-after-untag":
+		push(3, 4, 5)
+		do(ck.Op{Kind: "tag", Blob: 4, Ref: 3})
+		do(ck.Op{Kind: "untag", Ref: 3})
+		return ck.Op{Kind: "gc"}
+	case "gc-clean":
+		push(4)
+		do(ck.Op{Kind: "tag", Blob: 4, Ref: 1})
+		return ck.Op{Kind: "gc"}
+	case "reopen":
+		return ck.Op{Kind: "reopen"}
+	case "push-manifest":
+		id := common.Pick(r, []int{4, 5, 6, 7})
+		if s.blobs[id] {
+			do(ck.Op{Kind: "delete", Blob: id})
+		}
+		return ck.Op{Kind: "push", Blob: id}
+	case "tag-new":
+		push(5)
+		return ck.Op{Kind: "tag", Blob: 5, Ref: 7}
+	case "untag":
+		push(4)
+		do(ck.Op{Kind: "tag", Blob: 4, Ref: 4})
+		return ck.Op{Kind: "untag", Ref: 4}
+	}
+	return ck.Op{Kind: "saveindex"}
+}
+
 func randomOp(r *common.Rand, s *sim, sc *ck.Script) ck.Op {
+	var allIDs, manIDs []int
+	for _, b := range sc.Blobs {
+		allIDs = append(allIDs, b.ID)
+		if b.IsManifest() {
+			manIDs = append(manIDs, b.ID)
+		}
+	}
+	if gcUniverse(sc) && r.Chance(1, 14) {
+		return ck.Op{Kind: "gc"}
+	}
 	present := func(ids []int, want bool) []int {
 		var out []int
 		for _, id := range ids {
@@ -224,7 +344,8 @@ var finalKinds = []string{
 	"tag-new", "tag-move", "tag-raw", "tag-missing",
 	"untag", "untag-missing",
 	"delete-tagged", "delete-digest-only", "delete-raw", "delete-missing",
-	"saveindex",
+	"saveindex", "reopen",
+	"push-sha512", "push-manifest-sha512", "delete-sha512",
 }
 
 // realize extends the history so that the situation exists and returns the final op.
@@ -304,6 +425,18 @@ func realize(r *common.Rand, kind string, s *sim, hist *[]ck.Op) ck.Op {
 		id := common.Pick(r, allIDs)
 		ensure(id, false)
 		return ck.Op{Kind: "delete", Blob: id}
+	case "reopen":
+		return ck.Op{Kind: "reopen"}
+	case "push-sha512":
+		ensure(1001, false)
+		return ck.Op{Kind: "push", Blob: 1001}
+	case "push-manifest-sha512":
+		ensure(1002, false)
+		return ck.Op{Kind: "push", Blob: 1002}
+	case "delete-sha512":
+		ensure(1002, true)
+		do(ck.Op{Kind: "tag", Blob: 1002, Ref: 5})
+		return ck.Op{Kind: "delete", Blob: 1002}
 	}
 	return ck.Op{Kind: "saveindex"}
 }
@@ -317,14 +450,88 @@ type outcome struct {
 	fails    []failure
 	offByOne bool
 	missed   bool
+	steps    string // projected micro-steps completed before the kill
 	err      string
 }
 
 type failure struct{ sig, msg string }
 
+// unlinked lists the blobs unlinked by projected steps, in order.
+func unlinked(steps []ck.Step) []int {
+	var out []int
+	for _, st := range steps {
+		if strings.HasPrefix(st.Text, "unlink:B") {
+			if v, err := strconv.Atoi(st.Text[len("unlink:B"):]); err == nil {
+				out = append(out, v)
+			}
+		}
+	}
+	return out
+}
+
+// encOp is one executed operation in the model runner's syntax.  Which nodes a
+// Delete-with-AutoGC cascade or a GC sweep visits (and in which order) is not
+// the model's business (C09): they are read off the recorded run.
+//
+//	dgc:<d>:<t1>:<t2>...   Delete(d) with AutoGC that went on to delete t1, t2, ...
+//	gc:<s1>:<s2>...        GC that swept s1, s2, ... (everything else is live)
+func encOp(sc *ck.Script, o ck.Op, unl []int) string {
+	switch {
+	case o.Kind == "delete" && sc.AutoGC:
+		e := fmt.Sprintf("dgc:%d", o.Blob)
+		for _, x := range unl {
+			if x != o.Blob {
+				e += ":" + strconv.Itoa(x)
+			}
+		}
+		return e
+	case o.Kind == "gc":
+		e := "gc"
+		for _, x := range unl {
+			e += ":" + strconv.Itoa(x)
+		}
+		return e
+	}
+	return o.String()
+}
+
+// encHistory renders the history operations of a recorded run.
+func encHistory(sc *ck.Script, nm *ck.Namer, tr *ck.Trace, hist []ck.Op) []string {
+	segs := tr.HistoryOps()
+	var out []string
+	for i, o := range hist {
+		var unl []int
+		if i < len(segs) {
+			unl = unlinked(nm.Project(segs[i], map[int64]string{}))
+		}
+		out = append(out, encOp(sc, o, unl))
+	}
+	return out
+}
+
+func gcish(sc *ck.Script) bool {
+	if sc.AutoGC {
+		return true
+	}
+	has := func(ops []ck.Op) bool {
+		for _, o := range ops {
+			if o.Kind == "gc" {
+				return true
+			}
+		}
+		return false
+	}
+	for _, seg := range sc.Pre {
+		if has(seg.History) || seg.Final.Kind == "gc" {
+			return true
+		}
+	}
+	return has(sc.History) || sc.Final.Kind == "gc"
+}
+
 // modelScript is the script in the model runner's syntax.  Earlier crashed runs
 // become history items "crash:<j>:<op>".
-func modelScript(sc *ck.Script, sizes map[int][]int64) string {
+func modelScript(sc *ck.Script, sizes map[int][]int64, hist []string, final string) string {
 	var bl []string
 	for _, b := range sc.Blobs {
 		m := 0
@@ -336,15 +543,11 @@ func modelScript(sc *ck.Script, sizes map[int][]int64) string {
 	}
 	var hs []string
 	for _, seg := range sc.Pre {
-		for _, o := range seg.History {
-			hs = append(hs, o.String())
-		}
-		hs = append(hs, fmt.Sprintf("crash:%d:%s", seg.J, seg.Final.String()))
+		hs = append(hs, seg.Enc...)
+		hs = append(hs, fmt.Sprintf("crash:%d:%s", seg.J, seg.FinalEnc))
 	}
-	for _, o := range sc.History {
-		hs = append(hs, o.String())
-	}
-	return "blobs=" + strings.Join(bl, ",") + ";hist=" + strings.Join(hs, ",") + ";final=" + sc.Final.String()
+	hs = append(hs, hist...)
+	return "blobs=" + strings.Join(bl, ",") + ";hist=" + strings.Join(hs, ",") + ";final=" + final
 }
 
 var readOnlyCalls = map[string]bool{"fcntl": true, "newfstatat": true, "fstat": true, "statx": true, "read": true,
@@ -425,8 +628,8 @@ func (p *prepared) mergeSizes(m map[int][]int64) {
 	}
 }
 
-func writeScript(dir string, blobs []ck.Blob, hist []ck.Op, final ck.Op) string {
-	sc := ck.Script{Blobs: blobs, History: hist, Final: final}
+func writeScript(dir string, full *ck.Script, hist []ck.Op, final ck.Op) string {
+	sc := ck.Script{AutoGC: full.AutoGC, Blobs: full.Blobs, History: hist, Final: final}
 	f, err := os.CreateTemp(dir, "script*.json")
 	if err != nil {
 		panic(err)
@@ -454,7 +657,7 @@ func observed(root string, sc *ck.Script) *sim {
 		for _, m := range idx.Manifests {
 			if r, ok := m.Annotations["org.opencontainers.image.ref.name"]; ok && strings.HasPrefix(r, "t") {
 				if v, err := strconv.Atoi(r[1:]); err == nil {
-					if id, ok := byHex[strings.TrimPrefix(m.Digest, "sha256:")]; ok {
+					if id, ok := byHex[m.Digest[strings.IndexByte(m.Digest, ':')+1:]]; ok {
 						s.tags[v] = id
 					}
 				}
@@ -464,19 +667,42 @@ func observed(root string, sc *ck.Script) *sim {
 	return s
 }
 
+// truth: the abstract state before and after the final operation of a process.
+// Plain scripts: the generator's own simulator.  Scripts with GC or AutoGC: what
+// a cascade or a sweep removes is C09's subject, so both states are observed on
+// disk (killed before the first system call of the operation / completed run).
+func (p *prepared) truth(sc *ck.Script, hist []ck.Op, final ck.Op, scriptPath string, win []ck.Event, recRoot string) (*sim, *sim, bool) {
+	if !gcish(sc) {
+		before := p.sim.clone()
+		for _, o := range hist {
+			before.apply(o)
+		}
+		after := before.clone()
+		after.apply(final)
+		return before, after, true
+	}
+	after := observed(recRoot, sc)
+	if len(win) == 0 {
+		return after, after, true
+	}
+	root := p.fresh("b")
+	tr, err := ck.Run(exe, root, scriptPath, filepath.Dir(root), &ck.Inject{Name: win[0].Name, Ord: win[0].Ord})
+	if err != nil || !tr.Killed || !tr.HasBegin || tr.HasEnd || len(tr.Window()) != 0 {
+		run.Count("kill-missed-window")
+		return nil, nil, false
+	}
+	before := observed(root, sc)
+	os.RemoveAll(filepath.Dir(root))
+	return before, after, true
+}
+
 // execSegment runs one earlier process on the prepared directory: history, then
 // the final operation killed at window call seg.K.  The crash itself is a case
 // (model comparison + oracle) of the script truncated at this segment.
 func execSegment(sc *ck.Script, i int, p *prepared) bool {
 	seg := &sc.Pre[i]
-	trunc := &ck.Script{Blobs: sc.Blobs, Pre: sc.Pre[:i], History: seg.History, Final: seg.Final}
-	before := p.sim.clone()
-	for _, o := range seg.History {
-		before.apply(o)
-	}
-	after := before.clone()
-	after.apply(seg.Final)
-	scriptPath := writeScript(p.dir, sc.Blobs, seg.History, seg.Final)
+	trunc := &ck.Script{AutoGC: sc.AutoGC, Blobs: sc.Blobs, Pre: sc.Pre[:i], History: seg.History, Final: seg.Final}
+	scriptPath := writeScript(p.dir, sc, seg.History, seg.Final)
 	rec := p.fresh("prerec")
 	tr, err := ck.Run(exe, rec, scriptPath, filepath.Dir(rec), nil)
 	if cannotReopen(tr, err) {
@@ -485,14 +711,25 @@ func execSegment(sc *ck.Script, i int, p *prepared) bool {
 	if err != nil || !tr.HasBegin || !tr.HasEnd {
 		panic(fmt.Sprintf("recording run of an earlier segment failed: %v (script %s)", err, sc.JSON()))
 	}
-	p.mergeSizes(ck.NewNamer(rec, sc).WriteSizes(tr.Events))
+	recNm := ck.NewNamer(rec, sc)
+	p.mergeSizes(recNm.WriteSizes(tr.Events))
 	win := tr.Window()
+	seg.Enc = encHistory(sc, recNm, tr, seg.History)
+	recSteps := recNm.Project(win, map[int64]string{})
+	seg.FinalEnc = encOp(sc, seg.Final, unlinked(recSteps))
+	before, after, ok := p.truth(sc, seg.History, seg.Final, scriptPath, win, rec)
+	if !ok {
+		return false
+	}
 	if p.base == "" {
 		p.base = filepath.Join(p.dir, "base")
 		os.Mkdir(p.base, 0o755)
 	}
 	if len(win) == 0 {
-		panic("empty window")
+		// the operation issued no system call (e.g. Untag of an unknown reference):
+		// there is nothing to be killed in
+		run.Count("earlier-segment-without-system-call")
+		return false
 	}
 	k := seg.K % len(win)
 	ktr, err := ck.Run(exe, p.base, scriptPath, p.dir, &ck.Inject{Name: win[k].Name, Ord: win[k].Ord})
@@ -509,18 +746,24 @@ func execSegment(sc *ck.Script, i int, p *prepared) bool {
 	}
 	nm := ck.NewNamer(p.base, sc)
 	done := ktr.Window()
-	seg.J = len(nm.Project(done, map[int64]string{}))
+	doneSteps := nm.Project(done, map[int64]string{})
+	seg.J = len(doneSteps)
 	state := ck.ObserveDir(p.base, sc, p.sizes)
 	fails := oracle(p.base, sc, before, after)
 	id := run.NewID()
-	run.Case(id, fmt.Sprintf("K %d %s %d %s", seg.J, modelScript(trunc, p.sizes), len(done), common.Hex(trunc.JSON())), "STATE "+state)
+	judged := strings.HasPrefix(stepsText(recSteps)+" ", stepsText(doneSteps)+" ") || len(doneSteps) == 0
+	if judged {
+		run.Case(id, fmt.Sprintf("K %d %s %d %s", seg.J, modelScript(trunc, p.sizes, seg.Enc, seg.FinalEnc), len(done), common.Hex(trunc.JSON())), "STATE "+state)
+	} else {
+		run.Count("cascade-order-differs-unjudged")
+	}
 	for _, f := range fails {
 		run.OracleFail(id, f.sig, fmt.Sprintf("%s (earlier crash %d: %s killed before window system call %d)", f.msg, i, seg.Final.String(), len(done)),
 			map[string]any{"script": trunc, "k": len(done)})
 	}
 	run.Count("earlier-crashes")
 	p.sim = observed(p.base, sc)
-	return true
+	return judged // the model cannot follow a cascade whose order it was not told
 }
 
 // cannotReopen: the child could not open the directory an earlier crash left
@@ -543,13 +786,7 @@ func cannotReopen(tr *ck.Trace, err error) bool {
 // kill it at every window system call (each time on a fresh copy of the prepared
 // directory).
 func runMain(sc *ck.Script, p *prepared, onlyK int, allK bool) {
-	before := p.sim.clone()
-	for _, o := range sc.History {
-		before.apply(o)
-	}
-	after := before.clone()
-	after.apply(sc.Final)
-	scriptPath := writeScript(p.dir, sc.Blobs, sc.History, sc.Final)
+	scriptPath := writeScript(p.dir, sc, sc.History, sc.Final)
 	hexJSON := common.Hex(sc.JSON())
 	rec := p.fresh("rec")
 	tr, err := ck.Run(exe, rec, scriptPath, filepath.Dir(rec), nil)
@@ -562,8 +799,14 @@ func runMain(sc *ck.Script, p *prepared, onlyK int, allK bool) {
 	nm := ck.NewNamer(rec, sc)
 	p.mergeSizes(nm.WriteSizes(tr.Events))
 	sizes := p.sizes
-	enc := modelScript(sc, sizes)
 	win := tr.Window()
+	steps := nm.Project(win, map[int64]string{})
+	enc := modelScript(sc, sizes, encHistory(sc, nm, tr, sc.History), encOp(sc, sc.Final, unlinked(steps)))
+	before, after, ok := p.truth(sc, sc.History, sc.Final, scriptPath, win, rec)
+	if !ok {
+		return
+	}
+	recText := stepsText(steps)
 	run.Count("final:" + sc.Final.Kind)
 	run.Count(fmt.Sprintf("history-len:%d", len(sc.History)))
 	run.Count(fmt.Sprintf("earlier-crashes-in-script:%d", len(sc.Pre)))
@@ -582,7 +825,6 @@ func runMain(sc *ck.Script, p *prepared, onlyK int, allK bool) {
 		run.Count("result:" + x)
 	}
 	// S: the script of the final operation
-	steps := nm.Project(win, map[int64]string{})
 	run.Case(run.NewID(), "S "+enc+" "+hexJSON, strings.TrimSpace("STEPS "+stepsText(steps)))
 	run.TracesAgainstImpl++
 	if len(steps) > 0 {
@@ -599,7 +841,11 @@ func runMain(sc *ck.Script, p *prepared, onlyK int, allK bool) {
 		if o.err != "" {
 			panic("kill run failed: " + o.err + " script " + sc.JSON())
 		}
-		run.Case(id, fmt.Sprintf("K %d %s %d %s", o.j, enc, o.k, hexJSON), "STATE "+o.state)
+		if strings.HasPrefix(recText+" ", o.steps+" ") || o.steps == "" {
+			run.Case(id, fmt.Sprintf("K %d %s %d %s", o.j, enc, o.k, hexJSON), "STATE "+o.state)
+		} else {
+			run.Count("cascade-order-differs-unjudged")
+		}
 		for _, f := range o.fails {
 			run.OracleFail(id, f.sig, fmt.Sprintf("%s (final op %s killed before window system call %d, after %d micro-steps)", f.msg, sc.Final.String(), o.k, o.j), rp)
 		}
@@ -610,7 +856,7 @@ func runMain(sc *ck.Script, p *prepared, onlyK int, allK bool) {
 	}
 	// the completed run: effects of everything that returned are present
 	finalState := ck.ObserveDir(rec, sc, sizes)
-	emit(outcome{k: len(win), j: len(steps), state: finalState, fails: oracle(rec, sc, after, after)})
+	emit(outcome{k: len(win), j: len(steps), steps: recText, state: finalState, fails: oracle(rec, sc, after, after)})
 	run.Sample(map[string]any{"final": sc.Final.String(), "history": len(sc.History), "earlier_crashes": len(sc.Pre),
 		"window_syscalls": len(win), "micro_steps": stepsText(steps)})
 
@@ -682,7 +928,7 @@ func killAt(sc *ck.Script, scriptPath, root string, win []ck.Event, k int, sizes
 	nm := ck.NewNamer(root, sc)
 	done := tr.Window()
 	steps := nm.Project(done, map[int64]string{})
-	o := outcome{k: len(done), j: len(steps), offByOne: len(done) != k}
+	o := outcome{k: len(done), j: len(steps), steps: stepsText(steps), offByOne: len(done) != k}
 	o.state = ck.ObserveDir(root, sc, sizes)
 	o.fails = oracle(root, sc, before, after)
 	return o
@@ -693,6 +939,25 @@ func killAt(sc *ck.Script, scriptPath, root string, win []ck.Event, k int, sizes
 func oracle(root string, sc *ck.Script, before, after *sim) []failure {
 	var fails []failure
 	add := func(sig, f string, a ...any) { fails = append(fails, failure{sig, fmt.Sprintf(f, a...)}) }
+	if sc.Final.Kind == "init" && len(sc.Pre) == 0 {
+		// a crash during the very first oci.New: whatever it left, New must succeed now
+		// and give the empty store (index.json may legitimately not exist yet)
+		st, err := oci.New(root)
+		if err != nil {
+			add("init-reopen-fails", "oci.New after a crash during initialisation: %v", err)
+			return fails
+		}
+		n := 0
+		st.Tags(context.Background(), "", func(tags []string) error { n += len(tags); return nil })
+		idx, status := ck.ReadRawIndex(root)
+		if status != "ok" || len(idx.Manifests) != 0 || n != 0 {
+			add("init-reopen-fails", "after re-initialisation index.json is %s with %d tags", status, n)
+		}
+		if !strings.Contains(ck.ObserveDir(root, sc, nil), "F:L=ok") {
+			add("init-reopen-fails", "after re-initialisation oci-layout is not valid")
+		}
+		return fails
+	}
 	// every file under blobs is complete and matches its name
 	names, bad := ck.BlobFiles(root)
 	for _, b := range bad {
@@ -726,8 +991,7 @@ func oracle(root string, sc *ck.Script, before, after *sim) []failure {
 		add("index-unreadable", "index.json is %s", status)
 	} else {
 		for _, m := range idx.Manifests {
-			hexd := strings.TrimPrefix(m.Digest, "sha256:")
-			fi, err := os.Stat(filepath.Join(root, "blobs", "sha256", hexd))
+			fi, err := os.Stat(ck.BlobPath(root, m.Digest))
 			if err != nil {
 				add("index-dangling", "index.json entry %s names a missing blob", m.Digest)
 			} else if fi.Size() != m.Size {
@@ -785,18 +1049,33 @@ func genHistory(r *common.Rand, sc *ck.Script, s *sim, n int) []ck.Op {
 	return h
 }
 
+func gcUniverse(sc *ck.Script) bool { return len(sc.Blobs) == 7 }
+
 func runGenerated(r *common.Rand, histLen int, kind string, big bool, allK bool, crashes int) {
-	sc := &ck.Script{Blobs: universe(r, big)}
+	runGeneratedIn(r, &ck.Script{Blobs: universe(r, big)}, histLen, kind, allK, crashes)
+}
+
+func runGeneratedIn(r *common.Rand, sc *ck.Script, histLen int, kind string, allK bool, crashes int) {
+	pick := func(rk string, s *sim, h *[]ck.Op) ck.Op {
+		if gcUniverse(sc) {
+			return realizeGC(r, rk, s, h)
+		}
+		return realize(r, rk, s, h)
+	}
 	p := newPrepared()
 	defer p.close()
 	for i := 0; i < crashes; i++ {
 		s := p.sim.clone()
 		seg := ck.Segment{History: genHistory(r, sc, s, r.Intn(4))}
-		kind := common.Pick(r, finalKinds)
+		kinds := finalKinds
+		if gcUniverse(sc) {
+			kinds = gcKinds
+		}
+		kind := common.Pick(r, kinds)
 		if kind == "untag-missing" {
 			kind = "untag" // an Untag of an unknown reference issues no system call: nothing to be killed in
 		}
-		seg.Final = realize(r, kind, s, &seg.History)
+		seg.Final = pick(kind, s, &seg.History)
 		seg.K = r.Intn(1000)
 		sc.Pre = append(sc.Pre, seg)
 		if !execSegment(sc, i, p) {
@@ -805,7 +1084,7 @@ func runGenerated(r *common.Rand, histLen int, kind string, big bool, allK bool,
 	}
 	s := p.sim.clone()
 	sc.History = genHistory(r, sc, s, histLen)
-	sc.Final = realize(r, kind, s, &sc.History)
+	sc.Final = pick(kind, s, &sc.History)
 	runMain(sc, p, -1, allK)
 }
 
@@ -854,7 +1133,7 @@ func main() {
 		return
 	}
 	r := run.Rand
-	nHist := run.Scale(6, 90)
+	nHist := run.Scale(4, 40)
 	perHist := len(finalKinds)
 	ki := int(run.Seed) * 5
 	for h := 0; h < nHist; h++ {
@@ -862,13 +1141,32 @@ func main() {
 			kind := finalKinds[ki%len(finalKinds)]
 			ki++
 			histLen := r.Intn(run.Scale(7, 14))
-			big := run.Thorough() && h%5 == 4 && (kind == "push-raw-multi" || kind == "pushbad")
+			big := (run.Thorough() && h%5 == 4 && (kind == "push-raw-multi" || kind == "pushbad")) ||
+				(!run.Thorough() && h == 1 && kind == "push-raw-multi") // > 1 MiB: many write units
 			crashes := 0
 			if h%3 == 2 {
 				crashes = 1 + r.Intn(2) // the directory was left behind by one or two killed processes
 				histLen = r.Intn(4)
 			}
 			runGenerated(r, histLen, kind, big, run.Thorough(), crashes)
+		}
+	}
+	// the initialisation itself, killed at every system call
+	func() {
+		p := newPrepared()
+		defer p.close()
+		runMain(&ck.Script{Blobs: universe(r, false), Final: ck.Op{Kind: "init"}}, p, -1, true)
+	}()
+	// Delete with AutoGC (cascades), GC and reopen, on the universe with referrers
+	nGC := run.Scale(2, 24)
+	for h := 0; h < nGC; h++ {
+		for _, kind := range gcKinds {
+			sc := &ck.Script{Blobs: universeGC(r), AutoGC: !strings.HasPrefix(kind, "gc-") || r.Bool()}
+			crashes := 0
+			if h%3 == 1 {
+				crashes = 1 + r.Intn(2)
+			}
+			runGeneratedIn(r, sc, r.Intn(5), kind, run.Thorough(), crashes)
 		}
 	}
 }
